@@ -75,9 +75,14 @@ def _check_grid(seq, T_expected, dt, ev, mod, config_cls, obs_cls, all_default=F
     from emu_base import PulserData
 
     # Pulser refuses times closer than 1e-12 inside one observable: hand such twins to two observables
-    first, second = [], []
+    first, second, third = [], [], []
     for e in ev:
-        (second if any(abs(e - f) <= 1e-12 for f in first) else first).append(e)
+        for bucket in (first, second, third):
+            if not any(abs(e - f) <= 1e-12 for f in bucket):
+                bucket.append(e)
+                break
+        else:
+            raise AssertionError("more than three mutually indistinguishable times")
     import emu_sv
 
     kw = {}
@@ -90,7 +95,7 @@ def _check_grid(seq, T_expected, dt, ev, mod, config_cls, obs_cls, all_default=F
         observables = [obs_cls(evaluation_times=None), emu_sv.CorrelationMatrix(evaluation_times=first[1:])]
         kw["default_evaluation_times"] = first[:1]
     else:
-        observables = [obs_cls(evaluation_times=first)] + ([emu_sv.CorrelationMatrix(evaluation_times=second)] if second else [])
+        observables = [obs_cls(evaluation_times=first)] + ([emu_sv.CorrelationMatrix(evaluation_times=second)] if second else []) + ([emu_sv.Energy(evaluation_times=third)] if third else [])
     cfg = config_cls(dt=dt, observables=observables, with_modulation=mod, log_level=logging.CRITICAL, **kw)
     pd = PulserData(sequence=seq, config=cfg, dt=dt)
     tt = list(pd.target_times)
